@@ -32,7 +32,7 @@ def P(pid, rules, technique, decides, not_decided, assumptions=(),
     }
 
 
-P("C01", ["R08", "R09", "R10", "R11", "R12", "R13c", "R17", "R07", "R34"],
+P("C01", ["R08", "R09", "R10", "R11", "R12", "R13c", "R17", "R07", "R34", "R39", "R41"],
   "typestate abstract interpretation (dirty/clean fields), carry-loop "
   "symbolic agreement, unit-of-measure inference",
   "R08 in TimePoint.__add__ every incremented time/day field is followed by "
@@ -55,7 +55,7 @@ P("C01", ["R08", "R09", "R10", "R11", "R12", "R13c", "R17", "R07", "R34"],
   ["unit declarations of sa/rules/scale.py (slot -> unit, radix -> ratio), "
    "printed with each obligation"])
 
-P("C02", ["R14", "R15", "R16", "R12", "R08", "R09", "R10"],
+P("C02", ["R14", "R15", "R16", "R12", "R08", "R09", "R10", "R43"],
   "def-use derivation of comparison-key operands, operator routing checks",
   "R15 every operand whose date/time fields feed the lexicographic key of "
   "_cmp, the hashed tuple of __hash__ and the field-wise difference of "
@@ -72,7 +72,7 @@ P("C02", ["R14", "R15", "R16", "R12", "R08", "R09", "R10"],
   "conversions C01/C03 are right), float ties in the second-of-day.",
   [], [])
 
-P("C03", ["R13ab", "R11", "R04", "R07", "R12"],
+P("C03", ["R13ab", "R11", "R04", "R07", "R12", "R39"],
   "structural slot-group and dispatch-matrix checks, leap-table polarity, "
   "cache-key discipline",
   "(thin) R13a each to_*_date fills exactly its own slot group from the "
@@ -90,7 +90,7 @@ P("C03", ["R13ab", "R11", "R04", "R07", "R12"],
   "cycle is the right tool and is outside this family.",
   [], ["definition table MODE_DEF (from the property text)"])
 
-P("C04", ["R12", "R14", "R15", "R32", "R17", "R08", "R09", "R10"],
+P("C04", ["R12", "R14", "R15", "R32", "R17", "R08", "R09", "R10", "R41"],
   "unit-of-measure inference, def-use derivation, order-agreement checks",
   "R12 the Duration returned by TimePoint - TimePoint is built from "
   "days/hours/minutes/seconds keywords only, each fed a value of that "
@@ -120,7 +120,7 @@ P("C05", ["R08", "R10", "R11", "R13c", "R13ab", "R09", "R34"],
   [], [])
 
 P("C06", ["R14", "R13c", "R08", "R09", "R10", "R11", "R12", "R15", "R22",
-          "R26", "R17", "R38", "R34"],
+          "R26", "R17", "R38", "R34", "R43"],
   "structural conversion-path checks, typestate, sign-domain evaluation",
   "R14 every converting path of to_time_zone shifts by (destination - own "
   "offset) - orientation cross-checked against get_time_zone_offset - and "
@@ -216,7 +216,7 @@ P("C10", ["R27", "R26", "R12"],
   "multiplies every captured unit.",
   "float -> str -> float fidelity, exponent notation.", [], [])
 
-P("C11", ["R16", "R17", "R12", "R07"],
+P("C11", ["R16", "R17", "R12", "R07", "R40", "R41"],
   "projection-set comparison of eq/hash/ordering, slot-coverage checks, "
   "unit inference",
   "R16 Duration.__eq__, __hash__ and the four orderings read exact units "
@@ -244,7 +244,7 @@ P("C12", ["R18", "R19"],
   "counts and values for concrete series.",
   ["two known findings (K1, K2) are reported as KNOWN-FINDING lines"], [])
 
-P("C13", ["R19"],
+P("C13", ["R19", "R43"],
   "abstract interpretation of guard status of returned points",
   "R19 every time point computed by arithmetic and returned by get_next, "
   "get_prev or get_first_after has passed self._get_is_in_bounds on that "
@@ -269,7 +269,7 @@ P("C14", ["R18", "R16", "R28"],
   "meaning.",
   "(r + d) - d == r and identical iteration over values.", [], [])
 
-P("C15", ["R04", "R05", "R06", "R07", "R30", "R03", "R12"],
+P("C15", ["R04", "R05", "R06", "R07", "R30", "R03", "R12", "R39"],
   "call-graph closure of mode reads, must-assign analysis, partial "
   "evaluation of set_mode over the finite mode table",
   "(structural, in full up to the assumptions) R04 every memoised function "
@@ -327,7 +327,7 @@ P("C17", ["R29", "R13d", "R26", "R23", "R20", "R12"],
   "strftime/strptime are ValueError-derived.",
   "character-level equality with libc strftime output.", [], [])
 
-P("C18", ["R26", "R12", "R14", "R07"],
+P("C18", ["R26", "R12", "R14", "R07", "R41", "R42"],
   "def-use dependence on the offset sign, unit inference with literal "
   "divisors",
   "(thin) R26 both components returned by get_local_time_zone are computed "
